@@ -139,11 +139,13 @@ func StepWorkflowPaths(wf *workflow.Workflow) map[string]string {
 		if ok1 {
 			kind, ok1 := stepDataMap["kind"]
 			if ok1 {
-				kindString := kind.(string)
-				if kindString == "foreach" {
-					subworkflowPath := stepDataMap["workflow"]
-					subworkflowPathString := subworkflowPath.(string)
-					stepFilePaths[subworkflowPathString] = subworkflowPathString
+				kindString, isString := kind.(string)
+				if isString && kindString == "foreach" {
+					// A missing or non-string workflow key is reported when the step is prepared.
+					subworkflowPathString, isString := stepDataMap["workflow"].(string)
+					if isString {
+						stepFilePaths[subworkflowPathString] = subworkflowPathString
+					}
 				}
 			}
 		}
